@@ -66,14 +66,14 @@ def registry():
     except ImportError:
         P = None
     reg['C03'] = dict(
-        rules=[T.rule_pb_sig, T.rule_pb_acc, T.rule_pb_out, T.rule_pb_view, T.rule_pb_ro, T.rule_pb_complete, T.rule_pb_pair, T.rule_setitem_copy, T.rule_pb_setitem_clear] + ([G.rule_pb_grade('C03')] if G is not None else []),
+        rules=[T.rule_pb_sig, T.rule_pb_acc, T.rule_pb_out, T.rule_pb_view, T.rule_pb_ro, T.rule_pb_complete, T.rule_pb_pair, T.rule_setitem_copy, T.rule_pb_setitem_clear, T.rule_pb_rebind, T.rule_pb_dead] + ([G.rule_pb_grade('C03')] if G is not None else []),
         explanation='Static decision of the tracer<->pullback calling protocol every traced program depends on. '
                     'Decides: existence/arity/keyword/permutation agreement between each recorder site and UTPM.pb_<name> '
                     '(R-pb-sig); accumulate-never-overwrite into adjoint storage (R-pb-acc, via the E1 alias/effect analysis '
                     'with interprocedural write modes); every pullback reaches its `out` (R-pb-out); view-mirrored ops have '
                     'guaranteed-view forwards (R-pb-view); pullbacks write only `out` (R-pb-ro); no certainly-unbound local / '
                     'unresolved name / dangling cls.X in any reachable pullback code (R-pb-complete); wrapper->kernel operand '
-                    'order (R-pb-pair); the pullback of an in-place write clears the overwritten adjoint on every path (R-pb-setitem-clear); pullback kernels are homogeneous Taylor arithmetic (C03.pb-grade, E2). NOT decided: that each pullback kernel computes the right linear map (transposes, '
+                    'order (R-pb-pair); no name holding `out` storage is re-bound and no adjoint-derived value is overwritten unread (R-pb-rebind, R-pb-dead); the pullback of an in-place write clears the overwritten adjoint on every path (R-pb-setitem-clear); pullback kernels are homogeneous Taylor arithmetic (C03.pb-grade, E2). NOT decided: that each pullback kernel computes the right linear map (transposes, '
                     'factors, signs) - the adjoint identity <xbar,v> = <ybar,F\'v> itself is numeric.',
         assumptions=['NumPy library summary tables of verif/effects.py (which calls return views / write out=)',
                      'receiver classes by class-hierarchy analysis on method names (no type checker available)',
